@@ -827,6 +827,57 @@ class OvGen:
             scrut = "('T %s)" % e()
         return "(%s |> match { %s })" % (scrut, ", ".join(arms))
 
+    def rest_operand(self, j, fields):
+        """An operand that is the `..rest` of a record pattern applied to the recursive record literal
+        [fields], in a match / let / fun: 1-2 fields with a definition are extracted, the remaining
+        fields may depend on them.  The rest is what std.record.remove gives: the remaining fields
+        FROZEN at the value they have in the literal (their priority is kept, they are not recomputed
+        by later merges and carry no pending contract).  Returns the field list of the reference
+        (each remaining field f is `rr<j>_.f`), the text as written, the reference let, and the same
+        operand built with std.record.remove."""
+        r = self.r
+        cand = [f["name"] for f in fields if f["kind"] == "stat" and f["val"] is not None and f["val"][0] == "e"]
+        if not cand or len(fields) < 2:
+            return None
+        self.feat("rest-of-a-record-pattern")
+        ext = r.shuffle(cand)[:r.weighted([(1, 3), (2, 1)])]
+        allnames = [f["name"] for f in fields]
+        taken, pats = [], []
+        for x in ext:
+            c = r.below(3)
+            if c == 0:
+                pats.append("%s = _" % x)
+            else:
+                k, w, b = self.binder(allnames, taken=taken)
+                taken.append(w)
+                # (the shorthand binds a variable named like the field)
+                if c == 1 and w == x:
+                    pats.append("%s%d%s" % (S0, k, S1))
+                else:
+                    pats.append("%s = %s" % (x, b))
+        k, w, b = self.binder(allnames, taken=taken)
+        lit = ov_record_text(fields)
+        pat = "{%s, ..%s}" % (", ".join(pats), b)
+        form = r.below(3)
+        self.feat("rest-pattern:" + ["match", "let", "fun"][form])
+        if form == 0:
+            written = "(%s |> match { %s => %s })" % (lit, pat, b)
+        elif form == 1:
+            written = "(let %s = %s in %s)" % (pat, lit, b)
+        else:
+            written = "((fun %s => %s) %s)" % (pat, b, lit)
+        by_std = lit
+        for x in ext:
+            by_std = "(std.record.remove \"%s\" %s)" % (x, by_std)
+        rn = "rr%d_" % j
+        ref = []
+        for f in fields:
+            if f["name"] in ext:
+                continue
+            ref.append({"name": f["name"], "kind": "stat", "prio": f["prio"] if f["val"] is not None else "n", "ctrs": [], "piece": False,
+                        "val": None if f["val"] is None else ("e", "%s.%s" % (rn, f["name"]))})
+        return {"fields": ref, "written": written, "by_std": by_std, "ref_let": "let %s = %s in\n" % (rn, lit), "extracted": ext}
+
     def ctrs(self, sib, outer):
         r = self.r
         out = []
@@ -1029,7 +1080,18 @@ def gen_override(rng, focus=None):
     shape = rng.choice(SHAPES if nops >= 2 else ["chain", "let-m", "m&m", "force-first", "chain"])
     ops = [R] + Ps
     names = ["o%d" % i for i in range(len(ops))]
-    lets = "".join("let %s = %s in\n" % (n, ov_record_text(o)) for n, o in zip(names, ops))
+    # some operands are the `..rest` of a record pattern applied to the generated literal
+    restops = {}
+    for j in range(len(ops)):
+        if rng.chance(1, (3 if focus else 6) * (1 if j == 0 else 2)):
+            info = g.rest_operand(j, ops[j])
+            if info:
+                restops[j] = info
+                ops[j] = info["fields"]
+    optext = [restops[j]["written"] if j in restops else ov_record_text(o) for j, o in enumerate(ops)]
+    lets = "".join("let %s = %s in\n" % (n, t) for n, t in zip(names, optext))
+    lets_std = "".join("let %s = %s in\n" % (n, restops[j]["by_std"] if j in restops else t) for j, (n, t) in enumerate(zip(names, optext)))
+    ref_lets = "".join(restops[j]["ref_let"] for j in sorted(restops))
     # merge expression over o0..ok and the structurally merged record, following the same tree
     if shape in ("chain", "force-first"):
         expr = " & ".join(names)
@@ -1069,23 +1131,27 @@ def gen_override(rng, focus=None):
     # the programs as written give local binders the names of fields; the reference (substituted)
     # program renames every binder apart
     lets = render(lets, g.binders, "written")
-    subst_raw = PRELUDE + ov_record_text(merged, as_written=False)
+    subst_raw = PRELUDE + ref_lets + ov_record_text(merged, as_written=False)
     progs = {
         "merged": PRELUDE + lets + expr,
         "subst": render(subst_raw, g.binders, "renamed"),
     }
-    for n, o in zip(names, ops):
-        progs["alone:" + n] = PRELUDE + render(ov_record_text(o), g.binders, "written")
+    for n, t in zip(names, optext):
+        progs["alone:" + n] = PRELUDE + render(t, g.binders, "written")
     # for the classification of a difference: the substituted record with the binders as written /
-    # with only the pattern variables of guarded match arms renamed
+    # with only the pattern variables of guarded match arms renamed; the merge with the rests of record
+    # patterns built by std.record.remove instead
     variants = {"subst-as-written": render(subst_raw, g.binders, "written"),
                 "subst-guards-renamed": render(subst_raw, g.binders, "guards-renamed")}
+    if restops:
+        variants["merged-with-the-rest-built-by-std.record.remove"] = PRELUDE + render(lets_std, g.binders, "written") + expr
     # the operand records once more with binders renamed apart (same dependency tables expected)
-    renamed_ops = {n: PRELUDE + render(ov_record_text(o), g.binders, "renamed") for n, o in zip(names, ops)}
-    guards_ops = {n: PRELUDE + render(ov_record_text(o), g.binders, "guards-renamed") for n, o in zip(names, ops)}
+    renamed_ops = {n: PRELUDE + render(t, g.binders, "renamed") for n, t in zip(names, optext)}
+    guards_ops = {n: PRELUDE + render(t, g.binders, "guards-renamed") for n, t in zip(names, optext)}
     return {"shape": shape, "nops": nops, "features": sorted(g.features), "progs": progs,
             "lets": PRELUDE + lets, "expr": expr, "names": names, "paths": ov_leaf_paths(merged),
             "variants": variants, "renamed_operands": renamed_ops, "guards_renamed_operands": guards_ops, "operands": ops,
+            "rest_operands": sorted(restops),
             "binders": {str(k): v for k, v in g.binders.items()}}
 
 
@@ -1093,6 +1159,8 @@ def synth_override(case, opi, x, value=1000):
     """The override history that exposes a wrong dependency table (DESIGN 1.4): operand [opi] of a
     generated case merged with a record that overrides exactly the field [x] (a top-level field, or
     a field of the nested records), against the substituted record with binders renamed apart."""
+    if opi in case.get("rest_operands", []):
+        return None               # (its field list is the reference construction, not the literal)
     op = case["operands"][opi]
     binders = {int(k): tuple(v) for k, v in case["binders"].items()}
     fx = {"name": x, "kind": "stat", "prio": "t", "ctrs": [], "val": ("e", str(value)), "piece": False}
